@@ -258,6 +258,24 @@ func runC15Representations(c *Ctx) {
 			str := fhirconv.InstantToString(e)
 			back, err := fhir.ParseInstant(str)
 			c.Law(err == nil && fhirconv.InstantToString(back) == str, "C15/helper-inverse", "parse after format is the identity", in, fmt.Sprintf("%q (%v)", str, err))
+			// element -> System value: the same instant, the same offset, the element's fraction digits
+			sv, ferr := system.From(e)
+			if ferr != nil {
+				c.Law(false, "C15/element-system", "element -> System value succeeds", in, ferr.Error())
+				continue
+			}
+			z := func(x string) string {
+				x = strings.TrimSuffix(strings.TrimSuffix(x, "+00:00"), "Z")
+				if i := strings.IndexByte(x, '.'); i >= 0 && len(x) >= i+7 && x[i+4:i+7] == "000" && (len(x) == i+7 || x[i+7] == '+' || x[i+7] == '-') {
+					x = x[:i+4] + x[i+7:]
+				}
+				return x
+			}
+			if dtv, isDT := sv.(system.DateTime); isDT {
+				c.Law(z(dtv.String()) == z(str), "C15/element-system-value", "element -> System value keeps the value, the precision and the offset (same text as the element's JSON rendering)", in, dtv.String()+" vs "+str)
+			} else {
+				c.Law(false, "C15/element-system-value", "an instant element is a DateTime value", in, fmt.Sprintf("%T", sv))
+			}
 		}
 		// ---- Time of day
 		us := int64(t.Hour()*3600+t.Minute()*60+t.Second())*1000000 + int64(t.Nanosecond()/1000)
